@@ -450,15 +450,9 @@ Proof.
     eexists _, _. split; [reflexivity|]. destruct (md3_oracle_copies c); reflexivity.
 Qed.
 
-Lemma promises_equal_current_nomd3 ds ks :
-  existsb (fun d => match d with DMd3 => true | _ => false end) ds = false ->
-  promises_equal current ds ks = true.
+Lemma promises_equal_current ds ks : promises_equal current ds ks = true.
 Proof.
-  intros H. unfold promises_equal. apply forallb_forall. intros d Hd.
-  assert (d <> DMd3).
-  { intros ->. assert (existsb (fun d => match d with DMd3 => true | _ => false end) ds = true).
-    { apply existsb_exists. eexists; split; [exact Hd | reflexivity]. } congruence. }
-  apply forallb_forall. intros s Hs. apply forallb_forall. intros k _.
-  destruct d; simpl in Hs; try contradiction; try congruence;
-    repeat (destruct Hs as [<- | Hs]; [destruct k; reflexivity|]); contradiction.
+  unfold promises_equal. apply forallb_forall. intros d _.
+  apply forallb_forall. intros s _. apply forallb_forall. intros k _.
+  destruct s, k; reflexivity.
 Qed.
